@@ -21,13 +21,19 @@
 // goroutine before sharing — that setup is not a concurrent read.  Then N=4 goroutines run the
 // group simultaneously (released together by closing a channel).
 //
-// Process structure.  A race report halts the process that produced it.  The shared runner
-// (harness/lib) buffers its replies, so a halted runner would lose the replies of all earlier
-// cases and the check could not tell which case raced.  Therefore the ops are executed in a CHILD
-// process (`gp-race child`, same binary, line in / line out, flushed); when the child dies with the
-// race exit code the parent parses the report, raises a finding with a signature that names the
-// writing function (`race:write:<func>`), answers `race <func>` and starts a new child.  Should the
-// parent itself ever be halted the check reports `crash:race:race`.
+// Process structure.  The check runs this adapter with halt_on_error=1, under which the first
+// report halts the process; the shared runner (harness/lib) buffers its replies, so a halted
+// runner would lose the replies of all earlier cases and the check could not tell which case
+// raced — and starting a race-instrumented process costs ~2 s (package initialisation of
+// `layers` under the detector), too slow to restart per racing case.  Therefore the ops are
+// executed in ONE long-lived CHILD process (`gp-race child`, same binary, line in / line out,
+// flushed) started with GORACE="halt_on_error=0 log_path=<tmp>": after every op the child reads what
+// the detector appended to its log, and the parent turns each report into a finding whose
+// signature names the function performing the WRITE (`race:write:<func>`) and answers
+// `race <func>,…`.  The detector prints each distinct pair of stacks once per process, so a site is
+// reported with the first op that exhibits it.  If the child dies the parent reports
+// `race:child-died` and starts a new one; should the parent itself ever be halted by a report the
+// check reports `crash:race:race`.
 //
 // Monitors:  race:write:<func> / race:report:<func>   data race reported by the Go race detector
 //            race:answers-differ:<group>              two readers of one packet got different answers
@@ -43,6 +49,7 @@ import (
 	"os"
 	"os/exec"
 	"regexp"
+	"sort"
 	"strings"
 	"sync"
 	"time"
@@ -213,14 +220,71 @@ func childExec(a []string) string {
 	return fmt.Sprintf("ok %d %016x\t%s\t%s\t%s", nl, h.Sum64(), strings.Join(stats, ","), fsig, strings.ReplaceAll(fwhat, "\t", " "))
 }
 
+// newReports returns what the race detector appended to its log file since the last call.
+var logOff int64
+
+func newReports() string {
+	base := os.Getenv("C02_RACE_LOG")
+	if base == "" {
+		return ""
+	}
+	f, err := os.Open(fmt.Sprintf("%s.%d", base, os.Getpid()))
+	if err != nil {
+		return ""
+	}
+	defer f.Close()
+	f.Seek(logOff, io.SeekStart)
+	b, _ := io.ReadAll(f)
+	logOff += int64(len(b))
+	return string(b)
+}
+
 func childMain() {
 	in := bufio.NewScanner(os.Stdin)
 	in.Buffer(make([]byte, 1<<20), 1<<26)
 	w := bufio.NewWriter(os.Stdout)
 	for in.Scan() {
 		line := strings.TrimSpace(in.Text())
-		reply, _ := lib.Protect(func() string { return childExec(strings.Fields(line)) })
-		w.WriteString(strings.ReplaceAll(reply, "\n", " "))
+		a := strings.Fields(line)
+		reply, _ := lib.Protect(func() string { return childExec(a) })
+		reply = strings.ReplaceAll(reply, "\n", " ")
+		if rep := newReports(); strings.Contains(rep, "DATA RACE") && len(a) >= 4 {
+			parts := strings.Split(reply, "\t")
+			for len(parts) < 2 {
+				parts = append(parts, "")
+			}
+			if len(parts) >= 4 && parts[2] == "" {
+				parts = parts[:2]
+			}
+			var fns []string
+			for _, one := range strings.Split(rep, "==================") {
+				if !strings.Contains(one, "DATA RACE") {
+					continue
+				}
+				kind, fn := raceSite(one)
+				fns = append(fns, fn)
+				short := one
+				if i := strings.Index(short, "Goroutine "); i > 0 {
+					short = short[:i]
+				}
+				short = strings.Join(strings.Fields(short), " ")
+				if len(short) > 700 {
+					short = short[:700]
+				}
+				parts = append(parts, "race:"+kind+":"+fn, fmt.Sprintf("Go race detector: data race among concurrent readers of one eager packet (group %s, %s, first %s): %s", a[1], a[2], a[3], short))
+				parts[1] += ",race-report,race-site:" + fn
+			}
+			sort.Strings(fns)
+			uniq := fns[:0]
+			for i, x := range fns {
+				if i == 0 || x != fns[i-1] {
+					uniq = append(uniq, x)
+				}
+			}
+			parts[0] = "race " + strings.Join(uniq, ",")
+			reply = strings.Join(parts, "\t")
+		}
+		w.WriteString(reply)
 		w.WriteByte('\n')
 		w.Flush()
 	}
@@ -236,17 +300,21 @@ type child struct {
 }
 
 var cur *child
+var logDir string
 
 func startChild() *child {
 	c := &child{cmd: exec.Command(os.Args[0], "child"), stderr: &bytes.Buffer{}}
-	env := os.Environ()
-	hasRace := false
-	for _, e := range env {
-		hasRace = hasRace || strings.HasPrefix(e, "GORACE=")
+	var env []string
+	for _, e := range os.Environ() {
+		if !strings.HasPrefix(e, "GORACE=") && !strings.HasPrefix(e, "C02_RACE_LOG=") {
+			env = append(env, e)
+		}
 	}
-	if !hasRace {
-		env = append(env, "GORACE=halt_on_error=1 exitcode=66")
+	if logDir == "" {
+		logDir, _ = os.MkdirTemp("", "gp-race-log")
 	}
+	base := logDir + "/race"
+	env = append(env, "GORACE=halt_on_error=0 exitcode=0 log_path="+base, "C02_RACE_LOG="+base)
 	c.cmd.Env = env
 	c.stdin, _ = c.cmd.StdinPipe()
 	so, _ := c.cmd.StdoutPipe()
@@ -345,22 +413,6 @@ func parentExec(a []string) string {
 		if ee, ok := err.(*exec.ExitError); ok {
 			code = ee.ExitCode()
 		}
-		if strings.Contains(rep, "DATA RACE") {
-			kind, fn := raceSite(rep)
-			lib.Stat("race-report")
-			lib.Stat("race-site:" + fn)
-			lib.Nontrivial()
-			short := rep
-			if i := strings.Index(short, "Goroutine "); i > 0 {
-				short = short[:i]
-			}
-			short = strings.Join(strings.Fields(short), " ")
-			if len(short) > 700 {
-				short = short[:700]
-			}
-			lib.Finding(P, "race:"+kind+":"+fn, fmt.Sprintf("Go race detector: data race among concurrent readers of one eager packet (group %s, %s, first %s): %s", a[1], a[2], a[3], short))
-			return "race " + fn
-		}
 		tail := rep
 		if len(tail) > 400 {
 			tail = tail[len(tail)-400:]
@@ -378,8 +430,10 @@ func parentExec(a []string) string {
 			}
 		}
 	}
-	if len(parts) >= 4 && parts[2] != "" {
-		lib.Finding(P, parts[2], parts[3])
+	for i := 2; i+1 < len(parts); i += 2 {
+		if parts[i] != "" {
+			lib.Finding(P, parts[i], parts[i+1])
+		}
 	}
 	return parts[0]
 }
@@ -418,4 +472,7 @@ func main() {
 	defer stopChild()
 	lib.Main(lib.Engine{Name: "race", Gen: gen, Reset: func() {}, Exec: parentExec})
 	stopChild()
+	if logDir != "" {
+		os.RemoveAll(logDir)
+	}
 }
